@@ -5,6 +5,9 @@ mod cells;
 mod codec;
 mod driver;
 mod evalrun;
+mod gen;
+mod rs;
+mod streams;
 mod oracle;
 mod pool;
 mod report;
@@ -134,12 +137,74 @@ fn run_cells_prop(o: &Opts, rep: &mut Report) {
     }
 }
 
+fn run_rs_stream(o: &Opts, rep: &mut Report, name: &str, rule: &str, exhaustive: bool, cases: Vec<rs::RsCase>, mode: &str) {
+    let outs = rs::run_rs(&cases, &o.driver, o.workers);
+    let mut sr = StreamReport::new(name, rule, exhaustive);
+    for (c, out) in cases.iter().zip(outs.iter()) {
+        let key = streams::enc_case_key(c);
+        // non-trivial: at least one rule, and the model produced a prediction
+        sr.count(&key, !c.rules.is_empty() && !out.model.unanswered);
+        sr.hist("tag", c.tag.split(' ').next().unwrap_or(""));
+        if let Some(first) = out.impl_out.first() {
+            let vals = rs::field(first, 0);
+            for kind in ["(ok", "(err type", "(err div0", "(err cast", "(err oob", "(err ref", "(err sym", "(err fn", "(err userfn"] {
+                if vals.contains(kind) {
+                    sr.hist("impl_outcome_contains", kind.trim_start_matches('('));
+                }
+            }
+            let ninv = rs::field(first, 2);
+            sr.hist("invocations", ninv);
+        }
+        if out.model.unanswered {
+            sr.frontier_unanswered += 1;
+        }
+        if out.model.oracle_used > 0 {
+            sr.via_oracle += 1;
+        }
+        rs::judge_rs(&o.prop, name, c, out, mode, rep);
+    }
+    rep.streams.push(sr);
+}
+
 fn main() {
     std::panic::set_hook(Box::new(|_| {}));
     let o = parse_args();
     let mut rep = Report { property: o.prop.clone(), tier: o.tier.clone(), seed: o.seed, profile: if cfg!(debug_assertions) { "dev".into() } else { "release".into() }, ..Default::default() };
     match o.prop.as_str() {
-        "C01" | "C02" | "C03" | "C04" => run_cells_prop(&o, &mut rep),
+        "C01" | "C02" | "C03" | "C04" => {
+            run_cells_prop(&o, &mut rep);
+            if o.prop == "C04" {
+                let mut rng = rng::Rng::new(o.seed);
+                let cases = streams::deep_none_cases(&mut rng, if o.tier == "thorough" { 60000 } else { 6000 });
+                run_rs_stream(&o, &mut rep, "deep-none", "a None that arises deep inside (missing field, index out of range, step into None, none literal) under 1..5 enclosing operators, each applied with the None-valued expression in either operand position and an arbitrary pool value (including ones that alone would be a type error) in the other; the expected outcome (None / false / true) is computed from the property's rule and checked on the implementation alone, then against the model", false, cases, "full");
+            }
+            if o.prop == "C01" || o.prop == "C02" {
+                let mut rng = rng::Rng::new(o.seed);
+                let n = if o.tier == "thorough" { 300000 } else { 20000 };
+                let cases = streams::random_cases(&mut rng, n, o.tier == "thorough");
+                run_rs_stream(&o, &mut rep, "random-expressions", "type-directed random expressions of depth <= 6 over all 47 constructors (7/8 well-typed children), leaves from the boundary pool and from facts fields of every type, through RuleSet::evaluate_value with cacheable / non-cacheable / failing user functions and symbols; inputs map / non-map / None", false, cases, if o.prop == "C02" { "full" } else { "range" });
+            }
+        }
+        "C05" => {
+            let mut rng = rng::Rng::new(o.seed);
+            let cases = streams::lazy_cases(&mut rng, o.tier == "thorough");
+            run_rs_stream(&o, &mut rep, "lazy-trees", "every operator of {if and or == != + contains > list map call index ! some &} over every tuple of logging leaf kinds (true/false/none/value/failing, all non-cacheable, unique argument per call site) exhaustively at depth 1; depth 2: every (operator, child position, child operator, child leaves) with the remaining children over {true,false,failing}; depth 3 random; compared on the exact invocation sequence and the error class of the result", false, cases, "log");
+        }
+        "C09" => {
+            let mut rng = rng::Rng::new(o.seed);
+            let cases = streams::rules_cases(&mut rng, o.tier == "thorough");
+            run_rs_stream(&o, &mut rep, "rulesets", "every sequence of 0..3 (thorough 0..4) rules over 13 rule kinds (4 succeeding, 8 failing one per error class, 1 counting user function) exhaustively, plus random longer rulesets and non-map inputs; compared on the outcome list (length, order, each value / error kind + payload)", false, cases, "full");
+        }
+        "C10" => {
+            let mut rng = rng::Rng::new(o.seed);
+            let cases = streams::resolve_cases(&mut rng, o.tier == "thorough");
+            run_rs_stream(&o, &mut rep, "paths", "6 inputs (nested maps/lists with near-miss keys: case variants, prefixes, the key `facts`, the empty key; non-map; None) x 11 bases (references, `facts`, symbols, unknown names) x every access path of length <= 2 (thorough 3) over 11 steps (present/absent keys, indices len-1/len/len+1, wrong step kind) x symbol tables with re-registration; random longer paths", false, cases, "full");
+        }
+        "C11" => {
+            let mut rng = rng::Rng::new(o.seed);
+            let cases = streams::cache_cases(&mut rng, o.tier == "thorough");
+            run_rs_stream(&o, &mut rep, "cache-histories", "counting / wrapping / identity user functions, cacheable or not: every ordered pair of 18 equal-or-similar arguments (i1 \"1\" \"i1\" [i1] f1 d1 d1.0 d1.00 f0 f-0 none NaN …) over two rules and 3 consecutive evaluations; every subset of failing invocation indices (32) x 4 call sequences x 3 rule splits; random histories; compared on the invocation log and all outcomes", false, cases, "full");
+        }
         p => {
             eprintln!("unknown property {p}");
             std::process::exit(2)
